@@ -8,6 +8,9 @@ CONSTANTS
   MaxNodes = 4
   MaxStack = 3
   BugOptionalDropsNone = FALSE
+  FixedStar = FALSE
+  FixedFinalInString = FALSE
+  FixedNestedLiteral = FALSE
 INVARIANT AnnotationRoutesAgree
 INVARIANT NoRouteRaises
 INVARIANT EmitDone
